@@ -107,7 +107,7 @@ class Path:
 
 
 class State:
-    __slots__ = ('env', 'heap', 'conds', 'events', 'known', 'visits', 'occ')
+    __slots__ = ('env', 'heap', 'conds', 'events', 'known', 'visits', 'occ', 'frames')
 
     def __init__(self):
         self.env = {}
@@ -117,6 +117,7 @@ class State:
         self.known = {}
         self.visits = {}
         self.occ = {}
+        self.frames = {}
 
     def fork(self):
         s = State()
@@ -127,6 +128,11 @@ class State:
         s.known = dict(self.known)
         s.visits = dict(self.visits)
         s.occ = dict(self.occ)
+        s.frames = {k: dict(v) for k, v in self.frames.items()}
+        # env must stay the same object as its frame entry
+        for k, v in self.frames.items():
+            if v is self.env:
+                s.env = s.frames[k]
         return s
 
 
@@ -136,6 +142,11 @@ class SymEx:
         self.prog = prog
         self.eff = eff
         self._pure = {}
+        self._closure_fields = {}
+        for b in prog.bodies.values():
+            for bi, si, st_ in b.stmts():
+                if st_['st'] == 'assign' and st_['rv']['rv'] == 'aggr' and st_['rv'].get('kind') == 'closure':
+                    self._closure_fields[norm(st_['rv']['closure'])] = st_['rv'].get('fields', [])
         self.inline_depth = inline_depth
         self.inline_max_blocks = inline_max_blocks
         self.inline_pred = inline_pred
@@ -150,6 +161,7 @@ class SymEx:
         b = self.prog.bodies[nid]
         self.npaths = 0
         st = State()
+        st.frames[b.nid] = st.env
         for i in range(1, b.argc + 1):
             st.env[i] = args[i - 1] if args else ('param', i)
         out = []
@@ -163,83 +175,106 @@ class SymEx:
     # -------------------------------------------------------------------------------------------
     # evaluation of places / operands / rvalues
     def read_place(self, b, st, pl):
-        v = st.env.get(pl['l'])
-        if v is None:
-            v = ('unk', 'uninit:%s:_%d' % (b.nid, pl['l']))
+        """Value currently stored in the place."""
+        return self.load(st, self.place_key(b, st, pl), b)
+
+    def load(self, st, key, b=None):
+        """Current content of the location named by `key` (pointer values and the locations they
+        designate are conflated: a term that is not a known location denotes itself)."""
+        if key in st.heap:
+            return st.heap[key]
+        k = key[0] if isinstance(key, tuple) and key else None
+        if k == 'local':
+            fr = st.env if (b is not None and key[1] == b.nid) else st.frames.get(key[1])
+            if fr is None:
+                fr = st.env
+            v = fr.get(key[2])
+            return v if v is not None else ('unk', 'uninit:%s:_%d' % (key[1], key[2]))
+        if k in ('fld', 'payload', 'index'):
+            base = key[1]
+            if self._rooted_in_local(base):
+                bv = self.load(st, base, b)
+                if k == 'fld':
+                    return self._proj_value(st, bv, key[2], None, b)
+                if k == 'payload':
+                    return self._proj_value(st, bv, key[3], key[2], b)
+                return ('index', bv, key[2])
+        return key
+
+    def _rooted_in_local(self, key):
+        while isinstance(key, tuple) and key and key[0] in ('fld', 'payload', 'index'):
+            key = key[1]
+        return isinstance(key, tuple) and key and key[0] == 'local'
+
+    def _proj_value(self, st, v, name_or_idx, variant, b):
+        """Project a *value* (not a location): field / variant payload of aggregates, else symbolic."""
+        if variant is not None:
+            if v[0] == 'aggr' and v[2] == variant:
+                return v[3][name_or_idx] if name_or_idx < len(v[3]) else ('unk', 'fieldidx')
+            return self.load(st, ('payload', v, variant, name_or_idx), b)
+        if v[0] == 'aggr':
+            idx = name_or_idx if isinstance(name_or_idx, int) else self._field_index(v[1], v[2], name_or_idx)
+            if idx is not None and idx < len(v[3]):
+                return v[3][idx]
+        if v[0] == 'tuple' and isinstance(name_or_idx, int) and name_or_idx < len(v[1]):
+            return v[1][name_or_idx]
+        if v[0] == 'closure':
+            idx = name_or_idx if isinstance(name_or_idx, int) else self._closure_index(v[1], name_or_idx)
+            if idx is not None and idx < len(v[2]):
+                return v[2][idx]
+        if v[0] == 'ovfpair' and isinstance(name_or_idx, int):
+            return v[1] if name_or_idx == 0 else ('ovf', v[1])
+        return self.load(st, ('fld', v, name_or_idx), b)
+
+    def _field_index(self, adt, variant, name):
+        a = self.prog.adts.get(adt)
+        if a:
+            for v in a['variants']:
+                if v['name'] == variant or len(a['variants']) == 1:
+                    for i, f in enumerate(v['fields']):
+                        if f['name'] == name:
+                            return i
+        if adt in STD_VARIANTS and isinstance(name, str) and name.isdigit():
+            return int(name)
+        return None
+
+    def _closure_index(self, nid, name):
+        names = self._closure_fields.get(nid)
+        if names and name in names:
+            return names.index(name)
+        return None
+
+    def place_key(self, b, st, pl):
+        """Term naming the location.  `*` loads the pointer stored in the location reached so far."""
+        key = ('local', b.nid, pl['l'])
         cur_variant = None
         for e in pl.get('p', []):
             if e == '*':
+                key = self.load(st, key, b)
                 continue
             if isinstance(e, dict):
                 if 'downcast' in e:
                     cur_variant = e['downcast'] or str(e['vidx'])
                     continue
                 if 'f' in e:
-                    v = self.project(st, v, e, cur_variant)
-                    cur_variant = None
+                    if cur_variant is not None:
+                        key = ('payload', key, cur_variant, e['f'])
+                        cur_variant = None
+                    elif 'tuple' in e or 'name' not in e:
+                        key = ('fld', key, e['f'])
+                    elif 'closure' in e:
+                        key = ('fld', key, e['f'])
+                    else:
+                        key = ('fld', key, e['name'])
                     continue
                 if 'index' in e:
-                    idx = st.env.get(e['index'], ('unk', 'idx'))
-                    v = ('index', v, idx)
+                    key = ('index', key, st.env.get(e['index'], ('unk', 'idx')))
                     continue
                 if 'cindex' in e:
-                    v = ('index', v, ('c', e['cindex']))
+                    key = ('index', key, ('c', e['cindex']))
                     continue
-            v = ('proj', v, repr(e))
-        return self.load(st, v)
-
-    def load(self, st, v):
-        """Consult the heap (writes through places seen on this path)."""
-        return st.heap.get(v, v)
-
-    def project(self, st, v, e, cur_variant):
-        idx = e['f']
-        name = e.get('name', idx)
-        if cur_variant is not None:
-            if v[0] == 'aggr' and v[2] == cur_variant:
-                return v[3][idx] if idx < len(v[3]) else ('unk', 'fieldidx')
-            return self.load(st, ('payload', v, cur_variant, idx))
-        if v[0] == 'aggr' and idx < len(v[3]):
-            return v[3][idx]
-        if v[0] == 'tuple' and idx < len(v[1]):
-            return v[1][idx]
-        if v[0] == 'closure' and idx < len(v[2]):
-            return v[2][idx]
-        if v[0] == 'ovfpair':
-            return v[1] if idx == 0 else ('ovf', v[1])
-        if 'tuple' in e:
-            return self.load(st, ('fld', v, idx))
-        return self.load(st, ('fld', v, name))
-
-    def place_key(self, b, st, pl):
-        """Term naming the *location* (same construction as read, without heap lookup at the end)."""
-        v = st.env.get(pl['l'], ('local', b.nid, pl['l']))
-        projs = pl.get('p', [])
-        if not projs:
-            return ('local', b.nid, pl['l'])
-        cur_variant = None
-        for e in projs:
-            if e == '*':
-                continue
-            if isinstance(e, dict):
-                if 'downcast' in e:
-                    cur_variant = e['downcast'] or str(e['vidx'])
-                    continue
-                if 'f' in e:
-                    name = e.get('name', e['f'])
-                    if cur_variant is not None:
-                        v = ('payload', v, cur_variant, e['f'])
-                        cur_variant = None
-                    elif 'tuple' in e:
-                        v = ('fld', v, e['f'])
-                    else:
-                        v = ('fld', v, name)
-                    continue
-                if 'index' in e:
-                    v = ('index', v, st.env.get(e['index'], ('unk', 'idx')))
-                    continue
-            v = ('proj', v, repr(e))
-        return v
+            key = ('proj', key, repr(e))
+        return key
 
     def operand(self, b, st, o):
         k = o.get('k')
@@ -266,7 +301,13 @@ class SymEx:
         if k == 'use':
             return self.operand(b, st, rv['op'])
         if k in ('ref', 'rawptr'):
-            return self.read_place(b, st, rv['pl'])
+            key = self.place_key(b, st, rv['pl'])
+            # a reference to a location whose content is itself a symbolic object denotes that object
+            if key[0] == 'local':
+                v = self.load(st, key, b)
+                if v[0] in ('param', 'fld', 'payload', 'call', 'unk', 'index') and not self._is_scalar_local(b, key[2]):
+                    return v
+            return key
         if k == 'cast':
             v = self.operand(b, st, rv['op'])
             ck = rv['kind']
@@ -313,6 +354,11 @@ class SymEx:
             return ('repeat', self.operand(b, st, rv['op']))
         return ('unk', 'rvalue:' + k)
 
+    def _is_scalar_local(self, b, l):
+        t = b.local_ty(l)['s']
+        return t in ('bool', 'u8', 'u16', 'u32', 'u64', 'u128', 'usize', 'i8', 'i16', 'i32', 'i64', 'i128', 'isize', 'char') or \
+            t.startswith('std::option::Option<') or t.startswith('(')
+
     def is_boolish(self, v):
         return v[0] in ('cmp', 'not', 'boolor', 'booland') or (v[0] == 'c' and isinstance(v[1], bool)) or \
             (v[0] == 'call' and isinstance(v[1], str) and v[1].split('::')[-1].startswith(('is_', 'has_', 'contains', 'should_')))
@@ -340,21 +386,30 @@ class SymEx:
     def write_place(self, b, st, pl, val, line=None, record=True):
         if not pl.get('p'):
             st.env[pl['l']] = val
+            st.heap.pop(('local', b.nid, pl['l']), None)
             return
         key = self.place_key(b, st, pl)
-        base = st.env.get(pl['l'])
-        only_local = not any(e == '*' for e in pl.get('p', []))
-        # writing a field of a locally held aggregate: rebuild when possible
-        if only_local and base is not None and len(pl['p']) == 1 and isinstance(pl['p'][0], dict) and 'f' in pl['p'][0]:
-            idx = pl['p'][0]['f']
-            if base[0] == 'tuple' and idx < len(base[1]):
+        self.store(st, key, val, b, line, record)
+
+    def store(self, st, key, val, b, line=None, record=True):
+        if key[0] == 'local':
+            fr = st.env if key[1] == b.nid else st.frames.get(key[1], st.env)
+            fr[key[2]] = val
+            return
+        # a field of an aggregate held in a local: rebuild the aggregate
+        if key[0] in ('fld',) and isinstance(key[1], tuple) and key[1][0] == 'local':
+            base = self.load(st, key[1], b)
+            idx = key[2]
+            if base[0] == 'tuple' and isinstance(idx, int) and idx < len(base[1]):
                 items = list(base[1]); items[idx] = val
-                st.env[pl['l']] = ('tuple', tuple(items)); return
-            if base[0] == 'aggr' and idx < len(base[3]):
-                items = list(base[3]); items[idx] = val
-                st.env[pl['l']] = ('aggr', base[1], base[2], tuple(items)); return
+                self.store(st, key[1], ('tuple', tuple(items)), b, line, False); return
+            if base[0] == 'aggr':
+                i2 = idx if isinstance(idx, int) else self._field_index(base[1], base[2], idx)
+                if i2 is not None and i2 < len(base[3]):
+                    items = list(base[3]); items[i2] = val
+                    self.store(st, key[1], ('aggr', base[1], base[2], tuple(items)), b, line, False); return
         st.heap[key] = val
-        if record:
+        if record and not self._rooted_in_local(key):
             st.events.append(('write', key, val, line, b.nid))
 
     # -------------------------------------------------------------------------------------------
@@ -482,7 +537,10 @@ class SymEx:
     # -------------------------------------------------------------------------------------------
     def call(self, b, bi, t, st, depth, out, cont):
         prog = self.prog
-        args = [self.operand(b, st, a) for a in t['args']]
+        raw = [self.operand(b, st, a) for a in t['args']]
+        # values as seen by code we do not step into: references to our own locals are replaced by
+        # the current content of those locals
+        args = [self.localval(st, a, b) for a in raw]
         targets, ext, passed = prog.call_targets(b, t)
         dest = t['dest']
         target = t.get('target')
@@ -502,7 +560,7 @@ class SymEx:
                 out.append(Path(st.conds, None, st.events, True, st.known))
             return None
         if ext:
-            m = self.model_ext(b, st, ext, args, t, depth, out, cont, target)
+            m = self.model_ext(b, st, ext, args, t, depth, out, cont, target, raw)
             if m == 'handled':
                 return None
             if m is not None:
@@ -518,7 +576,7 @@ class SymEx:
                 self.write_place(_b, s2, _dest, rv, _line, record=False)
                 self._exec(_b, _target, s2, _depth, out, _cont)
 
-            self.inline(tg, args, st, depth, out, k2)
+            self.inline(tg, raw, st, depth, out, k2)
             return None
         # opaque in-crate call (trait fan-out or too large)
         cname = targets[0] if len(targets) == 1 else (callee_raw or name)
@@ -528,7 +586,8 @@ class SymEx:
 
     # the intrusive list, its cache-level wrappers and the sketch are primitives of the cache-level analysis
     OPAQUE_MODULES = ('common::deque::', 'common::frequency_sketch::', 'unsync::deques::', 'common::concurrent::deques::',
-                      '<common::deque::', 'common::time::clock::')
+                      '<common::deque::Deque as', '<<common::deque::Deque as', '<&mut common::deque::Deque as',
+                      'common::time::clock::')
 
     PURE_EXT_LAST = {'checked_add', 'checked_sub', 'from_secs', 'from_millis', 'from_micros', 'from_nanos', 'hash_one', 'eq', 'ne',
                      'ptr_eq', 'max', 'min', 'next_power_of_two', 'count_ones', 'try_into', 'as_secs', 'as_millis', 'pow',
@@ -588,15 +647,26 @@ class SymEx:
 
     def inline(self, tg, args, st, depth, out, k):
         """Execute callee body `tg` with argument terms, continuing with k(state, retval)."""
-        saved_env = st.env
+        caller_nid = None
+        for fk, fv in st.frames.items():
+            if fv is st.env:
+                caller_nid = fk
+        saved_callee_frame = st.frames.get(tg.nid)
         env = {}
         for i in range(1, tg.argc + 1):
             env[i] = args[i - 1] if i - 1 < len(args) else ('unk', 'arg')
 
-        def kk(s2, rv, _saved=saved_env):
-            s2.env = dict(_saved)
+        def kk(s2, rv, _caller=caller_nid, _tg=tg.nid, _saved=saved_callee_frame):
+            # states may have been forked: frames are looked up by name in the state at hand
+            if _saved is not None:
+                s2.frames[_tg] = dict(_saved)
+            else:
+                s2.frames.pop(_tg, None)
+            if _caller is not None and _caller in s2.frames:
+                s2.env = s2.frames[_caller]
             k(s2, rv)
 
+        st.frames[tg.nid] = env
         st.env = env
         self._exec(tg, 0, st, depth + 1, out, kk)
 
@@ -611,7 +681,12 @@ class SymEx:
         return False
 
     # -------------------------------------------------------------------------------------------
-    def model_ext(self, b, st, ext, args, t, depth, out, cont, target):
+    def localval(self, st, a, b):
+        if isinstance(a, tuple) and a and self._rooted_in_local(a):
+            return self.load(st, a, b)
+        return a
+
+    def model_ext(self, b, st, ext, args, t, depth, out, cont, target, raw=None):
         """Models of std functions. Returns a term, None (= opaque), or 'handled' when the
         continuation has been invoked on forked states."""
         last = ext.split('::')[-1]
@@ -625,29 +700,30 @@ class SymEx:
         if ext.startswith(PANIC_PREFIXES):
             return None
         if ext in CMP_TRAIT and len(args) == 2:
-            return mk_cmp(CMP_TRAIT[ext], args[0], args[1])
+            return mk_cmp(CMP_TRAIT[ext], self.load(st, args[0], b), self.load(st, args[1], b))
         if ext in LOCK_CALLS and args:
             st.events.append(('call', ext, tuple(args), line, b.nid, self.place_key(b, st, dest)))
             return ('aggr', RESULT, 'Ok', (args[0],))
         if ext in UNWRAP_CALLS and args:
-            return self.payload_of(st, args[0], ext)
+            return self.payload_of(st, self.load(st, args[0], b), ext)
         if ext in IDENTITY_PATHS_SUFFIX and args:
             return args[0]
         if ext in ('std::mem::drop', 'core::mem::drop') and args:
             st.events.append(('call', ext, tuple(args), line, b.nid, None))
             return ('c', '()')
         if ext == 'std::option::Option::is_some' and args:
-            return self.is_some(st, args[0])
+            return self.is_some(st, self.load(st, args[0], b))
         if ext == 'std::option::Option::is_none' and args:
-            return mk_not(self.is_some(st, args[0]))
+            return mk_not(self.is_some(st, self.load(st, args[0], b)))
         if ext in ('std::option::Option::unwrap_or', 'std::option::Option::unwrap_or_default',
                    'std::option::Option::map', 'std::option::Option::and_then', 'std::option::Option::map_or',
                    'std::option::Option::unwrap_or_else', 'std::option::Option::take', 'std::option::Option::ok_or',
                    'std::option::Option::filter') and args:
-            o = args[0]
+            o = self.load(st, args[0], b)
             cases = self.option_cases(st, o)
+            loc = raw[0] if raw else args[0]
             for (s2, is_some, payload) in cases:
-                self._option_op(b, s2, ext, is_some, payload, args, depth, out, resume, t)
+                self._option_op(b, s2, ext, is_some, payload, args, depth, out, resume, t, loc)
             return 'handled'
         if ext in ('std::ops::FnOnce::call_once', 'std::ops::FnMut::call_mut', 'std::ops::Fn::call') and args:
             clo = args[0]
@@ -695,7 +771,7 @@ class SymEx:
         st.conds.append((d, 1)); st.known[d] = 1
         return [(s_none, False, None), (st, True, self.load(st, ('payload', o, 'Some', 0)))]
 
-    def _option_op(self, b, st, ext, is_some, payload, args, depth, out, resume, t):
+    def _option_op(self, b, st, ext, is_some, payload, args, depth, out, resume, t, loc=None):
         last = ext.split('::')[-1]
         if last == 'unwrap_or':
             resume(st, payload if is_some else args[1]); return
@@ -716,8 +792,7 @@ class SymEx:
             resume(st, ('aggr', RESULT, 'Ok', (payload,)) if is_some else ('aggr', RESULT, 'Err', (args[1],))); return
         if last == 'take':
             # old value is returned; the place becomes None
-            st.heap[args[0]] = NONE
-            st.events.append(('write', args[0], NONE, t.get('line'), b.nid))
+            self.store(st, loc if loc is not None else args[0], NONE, b, t.get('line'), True)
             resume(st, some(payload) if is_some else NONE); return
         if last in ('map', 'and_then', 'filter'):
             if not is_some:
